@@ -13,9 +13,11 @@
    round, silent rounds, "may be banned") carry the property; they never read cnt/ts.
 
    Configurations ("mode"):
-     "exc"   : rules = nil, exceptions = [event contains EXC]
+     "exc"   : rules = nil, exceptions = [event contains EXC ; NOT (event starts with {"level":")]
      "rules" : rules = [event contains UNL -> unlimited ; source_name = name of source 2 -> T2],
-               exceptions = [event contains EXC]          (both lists configured)
+               exceptions as in "exc"                     (both lists configured)
+   (class "e" = a record matching one of the exceptions; the replay realises it alternately by a long
+    record with EXC and by a record shorter than the inverted rule's value)
    so the threshold of a source is a function of the source (source 2 in mode "rules": T2, else T).
 
    Named deviations of the code from the statement (TRUE = what the code does):
@@ -23,7 +25,20 @@
                                  on the counter of a source it has just unbanned, so fewer than
                                  `threshold` further arrivals ban the source again.
      D_ExceptionsIgnoredWithRules  IsSpam consults the exception list only when rules = nil.
-   With both FALSE the strict invariants (BanOnlyAfterThresholdStrict, ExceptionNeverDropsStrict)
+   Mechanism switches (TRUE = the mechanism the code has; FALSE = a specification mutant without it,
+   which must violate the named invariant -- the counterexample lies inside the replayed scope):
+     M_CapPerSource          Maintenance caps a counter at unban * the SOURCE's threshold (FALSE: the
+                             global threshold) -- UnbanWithin.
+     M_InvertAfterShortcut   matchrule.Rule.Match negates the result of match(), "shorter than the shortest
+                             value -> false" included (FALSE: the shortcut returns before the negation) --
+                             MatchAgrees.
+
+   PART "match":  cfg/matchrule Rule.Match / RuleSet.Match (what decides "a matching exception"),
+   transcribed with Prepare's lower-casing, the min/max value-size shortcuts and Invert, against the
+   declarative meaning: a rule matches iff Invert # (some value is a prefix / infix / suffix of the
+   data, case folded if asked); a set matches iff all (and) / some (or) of its rules do.
+
+   With both D_ switches FALSE the strict invariants (BanOnlyAfterThresholdStrict, ExceptionNeverDropsStrict)
    hold; with TRUE only the versions that excuse exactly the deviation's enabling condition do.   *)
 EXTENDS Integers, Sequences, FiniteSets, TLC, Json
 
@@ -37,12 +52,18 @@ CONSTANTS
   MaxSteps,
   Ts, WithDisabled,   \* thresholds >= 1; WithDisabled adds the threshold -1 (TLC cfg files have no negative literals)
   T2s, Us, Modes,
-  D_ResidualAfterUnban, D_ExceptionsIgnoredWithRules
+  D_ResidualAfterUnban, D_ExceptionsIgnoredWithRules,
+  M_CapPerSource, M_InvertAfterShortcut,
+  MSyms,            \* match: symbols of data and values (1 = a, 2 = b, 3 = A, the upper case of 1)
+  MDataMax, MValMax,\* match: length bounds of data / values
+  MCi,              \* match: candidate case_insensitive flags
+  MPairLens         \* match: two-rule sets use the values a, ab, aba cut to these lengths
 
 NL == 0
 Srcs == 1..NSrc
 
 VARIABLES part,
+          mt,                       \* match case
           sz,                       \* size case
           sc,                       \* spam configuration [T, T2, U, mode]
           known, cnt, ts, thrOf,    \* Antispammer.sources / counter / timestamp / sourcesThresholds
@@ -51,7 +72,7 @@ VARIABLES part,
           win, silent, pb,          \* declarative: arrivals since previous maintenance, silent rounds, may-be-banned
           resid                     \* explanation of D_ResidualAfterUnban: the counter the last maintenance left
 
-vars == <<part, sz, sc, known, cnt, ts, thrOf, now, hist, win, silent, pb, resid>>
+vars == <<part, mt, sz, sc, known, cnt, ts, thrOf, now, hist, win, silent, pb, resid>>
 
 -----------------------------------------------------------------------------
 (* ============================ PART size ================================= *)
@@ -124,6 +145,85 @@ SizeExport == [part |-> "size", L |-> sz.L, nl |-> sz.nl, M |-> sz.M, cut |-> sz
 NoSz == [L |-> 0, nl |-> FALSE, M |-> 0, cut |-> FALSE, mark |-> FALSE, undec |-> FALSE, committed |-> FALSE]
 
 -----------------------------------------------------------------------------
+(* ============================ PART match ================================ *)
+
+Strs(S, lo, hi) == UNION {[1..n -> S] : n \in lo..hi}
+Lower(str) == [i \in DOMAIN str |-> IF str[i] = 3 THEN 1 ELSE str[i]]
+MinOf(S) == CHOOSE x \in S : \A y \in S : x <= y
+MaxOf(S) == CHOOSE x \in S : \A y \in S : x >= y
+IsPrefixOf(v, d) == Len(v) <= Len(d) /\ SubSeq(d, 1, Len(v)) = v
+IsSuffixOf(v, d) == Len(v) <= Len(d) /\ SubSeq(d, Len(d) - Len(v) + 1, Len(d)) = v
+IsInfixOf(v, d) == \E o \in 0..(Len(d) - Len(v)) : SubSeq(d, o + 1, o + Len(v)) = v
+
+MModes == {"prefix", "contains", "suffix"}
+MValStrs == Strs(MSyms, 1, MValMax)
+MValSeqs == {<<v>> : v \in MValStrs} \cup UNION {{<<v, w>> : w \in MValStrs \ {v}} : v \in MValStrs}
+MRules == {[vals |-> vs, mode |-> m, ci |-> ci, inv |-> inv] :
+             vs \in MValSeqs, m \in MModes, ci \in MCi, inv \in BOOLEAN}
+MPairVals == {SubSeq(<<1, 2, 1>>, 1, n) : n \in MPairLens}
+MPairRules == {[vals |-> <<v>>, mode |-> m, ci |-> FALSE, inv |-> inv] : v \in MPairVals, m \in MModes, inv \in BOOLEAN}
+MData == Strs(MSyms, 0, MDataMax)
+MatchCases ==
+  {[rules |-> <<r>>, cond |-> "and", data |-> d] : r \in MRules, d \in MData}
+  \cup {[rules |-> <<r1, r2>>, cond |-> c, data |-> d] : r1 \in MPairRules, r2 \in MPairRules, c \in {"and", "or"}, d \in MData}
+
+(* --- transcription: Rule.Prepare, Rule.Match, Rule.match --- *)
+RulePrepared(r) == IF r.ci THEN [i \in DOMAIN r.vals |-> Lower(r.vals[i])] ELSE r.vals
+RuleMatchInner(r, raw, shortcut) ==          \* func (r *Rule) match(raw)
+  LET vals == RulePrepared(r)
+      minSize == MinOf({Len(vals[i]) : i \in DOMAIN vals})
+      maxSize == MaxOf({Len(vals[i]) : i \in DOMAIN vals})
+  IN IF shortcut /\ Len(raw) < minSize THEN FALSE
+     ELSE IF r.mode = "contains"
+       THEN LET data == IF r.ci THEN Lower(raw) ELSE raw
+            IN \E i \in DOMAIN vals : Len(data) >= Len(vals[i]) /\ IsInfixOf(vals[i], data)
+       ELSE LET cut == IF Len(raw) < maxSize THEN raw
+                       ELSE IF r.mode = "prefix" THEN SubSeq(raw, 1, maxSize)
+                       ELSE SubSeq(raw, Len(raw) - maxSize + 1, Len(raw))
+                cd == IF r.ci THEN Lower(cut) ELSE cut
+            IN \E i \in DOMAIN vals :
+                 /\ Len(cd) >= Len(vals[i])
+                 /\ IF r.mode = "prefix" THEN SubSeq(cd, 1, Len(vals[i])) = vals[i]
+                    ELSE SubSeq(cd, Len(cd) - Len(vals[i]) + 1, Len(cd)) = vals[i]
+RuleMatch(r, raw) ==                         \* func (r *Rule) Match(raw)
+  IF M_InvertAfterShortcut
+    THEN LET ok == RuleMatchInner(r, raw, TRUE) IN IF r.inv THEN ~ok ELSE ok
+    ELSE \* mutant: the length shortcut sits in Match, ahead of the negation
+         IF Len(raw) < MinOf({Len(RulePrepared(r)[i]) : i \in DOMAIN r.vals}) THEN FALSE
+         ELSE LET ok == RuleMatchInner(r, raw, FALSE) IN IF r.inv THEN ~ok ELSE ok
+
+RECURSIVE RuleSetLoop(_, _, _, _)
+RuleSetLoop(rules, cond, data, i) ==         \* the loop of func (rs *RuleSet) Match(data)
+  IF i > Len(rules) THEN cond = "and"
+  ELSE LET m == RuleMatch(rules[i], data)
+       IN IF m /\ cond = "or" THEN TRUE
+          ELSE IF ~m /\ cond = "and" THEN FALSE
+          ELSE RuleSetLoop(rules, cond, data, i + 1)
+RuleSetMatch(c) == IF Len(c.rules) = 0 THEN FALSE ELSE RuleSetLoop(c.rules, c.cond, c.data, 1)
+
+(* --- declarative meaning --- *)
+Fold(r, str) == IF r.ci THEN Lower(str) ELSE str
+RuleHolds(r, d) ==
+  \E i \in DOMAIN r.vals :
+     LET v == Fold(r, r.vals[i])
+         dd == Fold(r, d)
+     IN CASE r.mode = "prefix" -> IsPrefixOf(v, dd)
+          [] r.mode = "contains" -> IsInfixOf(v, dd)
+          [] r.mode = "suffix" -> IsSuffixOf(v, dd)
+RuleMeans(r, d) == RuleHolds(r, d) # r.inv
+SetMeans(c) == IF c.cond = "and" THEN \A i \in DOMAIN c.rules : RuleMeans(c.rules[i], c.data)
+               ELSE \E i \in DOMAIN c.rules : RuleMeans(c.rules[i], c.data)
+
+MatchAgrees == part = "match" => RuleSetMatch(mt) = SetMeans(mt)
+
+MatchExport == [part |-> "match", cond |-> mt.cond, data |-> mt.data,
+                rules |-> [i \in DOMAIN mt.rules |->
+                             [vals |-> mt.rules[i].vals, mode |-> mt.rules[i].mode, ci |-> mt.rules[i].ci, inv |-> mt.rules[i].inv]],
+                m |-> SetMeans(mt), mm |-> RuleSetMatch(mt),
+                short |-> \E i \in DOMAIN mt.rules : \A j \in DOMAIN mt.rules[i].vals : Len(mt.data) < Len(mt.rules[i].vals[j])]
+NoMt == [rules |-> <<>>, cond |-> "and", data |-> <<>>]
+
+-----------------------------------------------------------------------------
 (* ============================ PART spam ================================= *)
 
 NoSc == [T |-> 0, T2 |-> 0, U |-> 0, mode |-> "none"]
@@ -175,7 +275,8 @@ MaintOne(s) ==
      ELSE LET isMore == x >= th
               x1 == IF x - th < 0 THEN 0 ELSE x - th
               x2 == IF ~D_ResidualAfterUnban /\ isMore /\ x1 < th THEN 0 ELSE x1   \* (ideal variant only)
-              x3 == IF x2 > sc.U * th THEN sc.U * th ELSE x2
+              capThr == IF M_CapPerSource THEN th ELSE sc.T                          \* (mutant: global threshold)
+              x3 == IF x2 > sc.U * capThr THEN sc.U * capThr ELSE x2
           IN [keep |-> TRUE, ncnt |-> x3]
 
 BannedIn(kn, c, th, s) == s \in kn /\ c[s] >= th[s]
@@ -211,7 +312,7 @@ Arrive(s, kind, dt) ==
         /\ win' = win1 /\ pb' = pb1 /\ silent' = [silent EXCEPT ![s] = 0]
         /\ resid' = resid1
         /\ hist' = Append(hist, step)
-  /\ UNCHANGED <<part, sz, sc>>
+  /\ UNCHANGED <<part, mt, sz, sc>>
 
 Maintain ==
   /\ part = "spam" /\ Len(hist) < MaxSteps
@@ -232,13 +333,14 @@ Maintain ==
         /\ win' = Zero /\ silent' = silent1 /\ pb' = pb1
         /\ resid' = cnt1
         /\ hist' = Append(hist, step)
-  /\ UNCHANGED <<part, sz, sc, now>>
+  /\ UNCHANGED <<part, mt, sz, sc, now>>
 
 -----------------------------------------------------------------------------
 Init ==
   /\ part \in Parts
-  /\ IF part = "size" THEN sz \in SizeCasesBounded /\ sc = NoSc
-     ELSE /\ sz = NoSz
+  /\ IF part = "size" THEN sz \in SizeCasesBounded /\ sc = NoSc /\ mt = NoMt
+     ELSE IF part = "match" THEN mt \in MatchCases /\ sz = NoSz /\ sc = NoSc
+     ELSE /\ sz = NoSz /\ mt = NoMt
           /\ \E T \in Ts \cup (IF WithDisabled THEN {-1} ELSE {}), U \in Us, mode \in Modes :
                \E T2 \in (IF mode = "rules" /\ NSrc >= 2 THEN T2s ELSE {0}) :
                  sc = [T |-> T, T2 |-> T2, U |-> U, mode |-> mode]
@@ -264,7 +366,7 @@ PrevMb(s) == IF Len(hist) = 1 THEN 0 ELSE hist[Len(hist) - 1].mb[s]
 Flip(s) == Last.mb[s] = 1 /\ PrevMb(s) = 0          \* banned(s) became true in the last step
 
 TypeOK ==
-  /\ part \in {"size", "spam"}
+  /\ part \in {"size", "spam", "match"}
   /\ part = "spam" => /\ \A s \in Srcs : cnt[s] >= 0 /\ (s \notin known => cnt[s] = 0)
                       /\ \A s \in known : cnt[s] <= sc.U * thrOf[s] + MaxSteps
 
@@ -318,6 +420,7 @@ SpamExport == [part |-> "spam", T |-> sc.T, T2 |-> sc.T2, U |-> sc.U, mode |-> s
 
 Export ==
   IF part = "size" THEN PrintT(ToJson(SizeExport))
+  ELSE IF part = "match" THEN PrintT(ToJson(MatchExport))
   ELSE IF Len(hist) = MaxSteps THEN PrintT(ToJson(SpamExport))
   ELSE TRUE
 
